@@ -14,7 +14,8 @@ open GenInterp
 
 /-- **Structuring.**  For every class table and type in the common support, every shared configuration (strategy,
 validation mode; `forbid_extra_keys` is a `Converter`-only option and off) and **every input object** `o` — valid,
-mutated or junk — whose class positions hold mappings (`mapsAtCls`; no condition at all under the tuple strategy,
+mutated or junk, `str` / `bytes` at iterating positions included (they are iterated) — whose class positions hold
+mappings (`mapsAtCls`; no condition at all under the tuple strategy,
 where both classes run the same interpretive code): the two converters both reject `o`, or both accept it with
 equal results. -/
 theorem C06_struct_agree (w : World) (cfg : Cfg) (t : Ty) (o : Obj)
@@ -151,6 +152,12 @@ example : mapsAtCls c06W3 (.cls 0) c06P3 = true := by
   simp [c06P3, c06W3, mapsAtCls, mapsAtClsF, mapsAtClsL, World.fields, Field.key, dlookup, Obj.pyEq, Obj.num2?, iterItems]
 example : mapsAtCls c06W3 (.cls 0) (.dict [(.str "d", .coll .list [])]) = false := by
   simp [c06W3, mapsAtCls, mapsAtClsF, World.fields, Field.key, dlookup, Obj.pyEq, Obj.num2?]
+/-- a `str` payload at a collection position is iterated (both engines run the same collection hooks): its characters
+are no mappings, so the hypothesis holds for `list[int]` and fails for `list[K]` -/
+example : mapsAtCls c06W3 (.coll .list .int) (.str "12") = true := by
+  simp [mapsAtCls, iterItems, mapsAtClsLf, leafItems, mapsAtClsLfL]
+example : mapsAtCls c06W3 (.coll .list (.cls 0)) (.str "12") = false := by
+  simp [mapsAtCls, iterItems, mapsAtClsLf, leafItems, mapsAtClsLfL]
 end Examples
 
 end CattrsModel
